@@ -105,3 +105,20 @@ const maxCopyAllSize = 64 * 1024 * 1024"""),
 				written := 0
 				for written < n {""")]},
 ]
+
+SEEDS += [
+ {"name": "c16-equal-verdict-before-last-compare", "properties": ["C16"], "expect": "C16-e|",
+  "edits": [e("sync/verify.go", """		if na != nb || !bytes.Equal(bufA[:na], bufB[:nb]) {
+			return fmt.Errorf("content mismatch at %q", path.Clean(name))
+		}
+
+		if ea == io.EOF && eb == io.EOF {
+			return nil
+		}""", """		if ea == io.EOF && eb == io.EOF {
+			return nil
+		}
+		if na != nb || !bytes.Equal(bufA[:na], bufB[:nb]) {
+			return fmt.Errorf("content mismatch at %q", path.Clean(name))
+		}
+""")]},
+]
